@@ -238,6 +238,8 @@ def check_result(res, rcat, logged, where):
 def expect_trace(lines, entity, self_ser, arg_sers, where):
     """exactly one library entry for this call; returns the logged result."""
     mine = [l for l in lines if l.split('\x1e')[0] == entity]
+    if entity.endswith('>') and '::' in entity and '<' in entity.rsplit('::', 1)[1]:
+        OUT['templated_calls'] = OUT.get('templated_calls', 0) + 1      # member / function template instantiations
     if len(lines) == 0:
         viol('binding did not reach the C++ library', where=where, expected=entity)
         return None
